@@ -96,8 +96,10 @@ def lifetimes(beh, ctxs, rnd, variant):
             cur.append({"op": "clock_millis", "t": (BASE_S + 0) * 1000 + x["tick"] * (1000 // TPS), "auto_step": 0})
             cur.append({"op": "cmd", "text": f'STORE ev FOR {ctxs[x["sh"]][x["k"] % len(ctxs[x["sh"]])]} PAYLOAD {{"k": {x["k"]}, "x": 1}}', "tag": [i, "store"]})
             # STORE is acknowledged when the event is queued for its shard; the id is drawn when the shard applies it.
-            # A read goes through the same mailbox, so after it the event has its id and the clocks may move on.
-            cur.append({"op": "cmd", "text": f'QUERY ev WHERE k = {x["k"]}', "tag": [i, "applied"]})
+            # The wait below goes through the same mailbox, so after it the event has its id and the clocks may move on.
+            # (a wait for flush completion, not a read: reads issued while an automatic rotation is being written can
+            #  leave null cells behind - open finding C03-null-cells-after-read-during-segment-write)
+            cur.append({"op": "flush_wait"})
         elif a == "remember":
             cur.append({"op": "cmd", "text": "REMEMBER QUERY ev WHERE x >= 1 AS m1", "tag": [i, "remember"]})
             cur.append({"op": "cmd", "text": "REMEMBER QUERY ev AS m1", "tag": [i, "remember_again"]})
